@@ -511,11 +511,26 @@ def run(ctx):
     rule_result_init(ctx)
     rule_init_nan(ctx)
     rule_no_memo(ctx)
+    rule_leftover_and_recycle(ctx)
+
+
+def rule_leftover_and_recycle(ctx):
+    """two ways in which an earlier calculation reaches a later one besides the cached keys: auxiliary rows left in the user's tables
+    (the next conversion converts them again) and a recycled run that does not re-run the builder of a changed element"""
+    from rules import C08, C12
+    R = "NO-LEFTOVER"
+    ctx.rule(R, "every calculation entry point that adds the auxiliary dcline generators / b2b VSCs removes them on every normal and "
+                "exceptional path (shared with C08 PAIR-AUX): a leftover row is converted again by the next calculation and counted twice")
+    n = C08.rule_pair(ctx, "auxiliary dcline generators / b2b VSCs", C08.AUX_ACQ, C08.AUX_REL, C08.ENTRIES + C08.EXTRA_PAIR_ENTRIES + C08.OWNER_ENTRIES, R)
+    if n < 8:
+        ctx.fail(f"NO-LEFTOVER: only {n} entry points reach the acquire/release functions (confirmed: 11)")
+    C12.flag_builders(ctx)   # declares and decides RECYCLE-RERUN
 
 
 def variants(repo):
     V = Variant
     pf = "pandapower/powerflow.py"
+    _opf = "pandapower/optimal_powerflow.py"
     pd = "pandapower/pd2ppc.py"
     au = "pandapower/auxiliary.py"
     bb = "pandapower/build_bus.py"
@@ -523,6 +538,8 @@ def variants(repo):
     rs = "pandapower/results.py"
     run_ = "pandapower/run.py"
     return [
+        V("OPF clean-up only for one exception type", _opf, replace_once("    except BaseException:\n        # remove the auxiliary elements also when the OPF fails or does not converge", "    except KeyError:\n        # remove the auxiliary elements when a lookup fails"), "NO-LEFTOVER"),
+        V("recycled run refreshes trafo3w only without trafo", pf, replace_once('        if "trafo3w" in lookup:', '        elif "trafo3w" in lookup:'), "RECYCLE-RERUN"),
         V("lookups not reset in conversion", pd, lambda s: _drop_lookup_reset(s, "pd2ppc"), "STALE-READ",
           note="powerflow.py keeps its own reset, so runopp/calc_sc/runpp_3ph fire"),
         V("final masks only with connectivity check", pd, replace_once('        net["_is_elements_final"] = net["_is_elements"]\n', ""), "_is_elements_final"),
